@@ -237,14 +237,16 @@ func (c *cluster) handleChanges(key watchKey, kvs []KV) {
 	watcher.values = newVals
 	c.lock.Unlock()
 
-	for _, kv := range add {
-		for _, l := range listeners {
-			l.OnAdd(kv)
-		}
-	}
+	// a key whose value changed is in both lists and deletion is keyed by the key only,
+	// so the removals have to be applied before the additions
 	for _, kv := range remove {
 		for _, l := range listeners {
 			l.OnDelete(kv)
+		}
+	}
+	for _, kv := range add {
+		for _, l := range listeners {
+			l.OnAdd(kv)
 		}
 	}
 }
